@@ -374,6 +374,7 @@ def load_model(repo: str | os.PathLike = "/repo", normalize: bool = True) -> Mod
         for p, text, tree in parsed:
             nz.module(p.stem, tree)
         nz.fix_keywords({p.stem: tree for p, _, tree in parsed})
+        nz.positionalise({p.stem: tree for p, _, tree in parsed})
         from .normalize import functions as _nz_functions, skeleton as _nz_skeleton, skeleton_drift as _nz_drift, skeleton_deletion_only as _nz_del, text_skeleton as _nz_tsk
         drift = {}
         del_only = set()
@@ -391,7 +392,7 @@ def load_model(repo: str | os.PathLike = "/repo", normalize: bool = True) -> Mod
                     new_in_module[p.stem] = new_in_module.get(p.stem, 0) + 1
         model.drift = drift
         model.deletion_only = {k for k in del_only if not new_in_module.get(k.split(".")[0])}
-        model.normalisation = {"renamed": nz.renamed, "temp_returns_inlined": nz.inlined, "log_statements_dropped": nz.log_stmts, "negated_ifs_unflipped": nz.unflipped, "annotated_local_assignments_made_plain": nz.annotated, "new_single_use_temporaries_inlined": nz.temps, "new_accumulator_loops_folded": nz.folded, "new_pure_explaining_variables_inlined": nz.pure_temps, "control_flow_restyled_towards_reference": nz.restyled, "calls_to_new_single_expression_helpers_inlined": nz.helpers_inlined, "new_module_level_literals_folded": nz.constants_folded}
+        model.normalisation = {"renamed": nz.renamed, "temp_returns_inlined": nz.inlined, "log_statements_dropped": nz.log_stmts, "negated_ifs_unflipped": nz.unflipped, "annotated_local_assignments_made_plain": nz.annotated, "new_single_use_temporaries_inlined": nz.temps, "new_accumulator_loops_folded": nz.folded, "new_pure_explaining_variables_inlined": nz.pure_temps, "control_flow_restyled_towards_reference": nz.restyled, "calls_to_new_single_expression_helpers_inlined": nz.helpers_inlined, "new_module_level_literals_folded": nz.constants_folded, "keyword_spelled_positional_arguments": nz.positionalised, "new_helper_bodies_inlined_at_statement_level": nz.helper_bodies_inlined}
     for p, text, tree in parsed:
         mod = Module(p.stem, p, str(p.relative_to(repo)), text, tree)
         _Indexer(mod).visit(tree)
